@@ -411,6 +411,49 @@ func (c *fileCtx) rewriteMapRange(rs *ast.RangeStmt, labeled bool) ast.Stmt {
 	return &ast.BlockStmt{List: append(pre, loop)}
 }
 
+// rewriteChanRange turns `for v := range ch { body }` into
+// `for { v, ok := simrt.Recv2(site, ch); if !ok { break }; body }`: a scheduling point before
+// every receive and re-synchronisation after it, as for a plain receive. `continue` in the
+// body continues the new loop (next receive), `break` leaves it; the loop variable is
+// declared per iteration, as Go 1.22 ranges do.
+func (c *fileCtx) rewriteChanRange(rs *ast.RangeStmt, labeled bool) ast.Stmt {
+	c.counts["chanrange"]++
+	siteExpr := c.site(rs, "recv")
+	var pre []ast.Stmt
+	ch := rs.X
+	if !isPure(ch) {
+		if labeled {
+			c.errorf(rs, "labeled range over a non-trivial channel expression is not supported")
+			return rs
+		}
+		t := c.fresh("c")
+		pre = append(pre, &ast.AssignStmt{Lhs: []ast.Expr{t}, Tok: token.DEFINE, Rhs: []ast.Expr{ch}})
+		ch = t
+	}
+	okv := c.fresh("ok")
+	rhs := call(rt("Recv2"), siteExpr, ch)
+	var body []ast.Stmt
+	id, isIdent := rs.Key.(*ast.Ident)
+	switch {
+	case rs.Key == nil || (isIdent && id.Name == "_"):
+		body = append(body, &ast.AssignStmt{Lhs: []ast.Expr{ast.NewIdent("_"), okv}, Tok: token.DEFINE, Rhs: []ast.Expr{rhs}})
+	case rs.Tok == token.DEFINE:
+		body = append(body, &ast.AssignStmt{Lhs: []ast.Expr{rs.Key, okv}, Tok: token.DEFINE, Rhs: []ast.Expr{rhs}})
+	default:
+		body = append(body, &ast.DeclStmt{Decl: &ast.GenDecl{Tok: token.VAR, Specs: []ast.Spec{
+			&ast.ValueSpec{Names: []*ast.Ident{okv}, Type: ast.NewIdent("bool")}}}})
+		body = append(body, &ast.AssignStmt{Lhs: []ast.Expr{rs.Key, okv}, Tok: token.ASSIGN, Rhs: []ast.Expr{rhs}})
+	}
+	body = append(body, &ast.IfStmt{Cond: &ast.UnaryExpr{Op: token.NOT, X: okv},
+		Body: &ast.BlockStmt{List: []ast.Stmt{&ast.BranchStmt{Tok: token.BREAK}}}})
+	body = append(body, rs.Body.List...)
+	loop := &ast.ForStmt{Body: &ast.BlockStmt{List: body}}
+	if len(pre) == 0 {
+		return loop
+	}
+	return &ast.BlockStmt{List: append(pre, loop)}
+}
+
 func (c *fileCtx) rewriteGo(gs *ast.GoStmt) ast.Stmt {
 	c.counts["go"]++
 	siteExpr := c.site(gs, "go")
@@ -488,7 +531,7 @@ func (c *fileCtx) apply() {
 			if c.isMap(x.X) {
 				cur.Replace(c.rewriteMapRange(x, labeled))
 			} else if c.isChan(x.X) {
-				c.errorf(x, "range over channel is not supported")
+				cur.Replace(c.rewriteChanRange(x, labeled))
 			}
 		case *ast.GoStmt:
 			cur.Replace(c.rewriteGo(x))
